@@ -130,6 +130,53 @@ def _run_chunk(recs):
   return out, calls
 
 
+def _pre_chunk(hists):
+  """Abstract state before the last call of each history (needed only for histories that diverged)."""
+  out = []
+  for h in hists:
+    w = _fresh_world()
+    for c in h[:-1]:
+      w.run(c)
+    out.append(w.project())
+    if _W['binding'] != 'world':
+      w.close()
+    elif _W['backend'] == 'sqlfile':
+      try:
+        w.svc.datastore._engine.dispose()
+        os.unlink(w.svc.datastore._engine.url.database)
+      except Exception:  # pylint: disable=broad-except
+        pass
+  return out
+
+
+JV = None
+
+
+def judge_divergences(divs, pres, conf, workdir, tag):
+  """TLC (VizierJudge.tla): is the observed step explained by SOME allowed choice of the model?  -> list of verdicts."""
+  import re
+  import tlc
+  global JV
+  JV = JV or re.compile(r'<<"JV", (\d+), "(\w+)">>')
+  events = []
+  for d, pre in zip(divs, pres):
+    resp = {k: v for k, v in d['got_resp'].items() if k != 'exc'}
+    events.append({'pre': pre, 'call': d['hist'][-1], 'resp': resp, 'post': d['got_state']})
+  path = os.path.join(workdir, 'judge_%s.json' % tag)
+  with open(path, 'w') as f:
+    json.dump(events, f)
+  cfg = os.path.join(workdir, 'judge_%s.cfg' % tag)
+  consts = {'Studies': set(conf['Studies']), 'Clients': set(conf['Clients']), 'MaxId': conf['MaxId'], 'Cells': set(conf['Cells']),
+            'Recycle': conf.get('Recycle', 'never')}
+  tlc.write_cfg(cfg, constants=consts, constraints=['Pos'])
+  res = tlc.must_ok(tlc.run_tlc('VizierJudge', cfg, workdir, workers=4, env={'TRACE_FILE': path}, timeout=1800), 'VizierJudge/' + tag)
+  v = {int(m.group(1)): m.group(2) for m in JV.finditer(res.out)}
+  if len(v) != len(events):
+    raise tlc.MachineryError('VizierJudge judged %d of %d steps\n%s' % (len(v), len(events), res.out[-1500:]))
+  os.unlink(path)
+  return [v[k + 1] for k in range(len(events))]
+
+
 class ReplayResult:
 
   def __init__(self):
@@ -140,10 +187,12 @@ class ReplayResult:
     self.wall = 0.0
     self.kinds = collections.Counter()
     self.nontrivial = set()
+    self.other_choice = 0        # steps whose outcome differs from the model's default choice but is explained by another allowed one
 
   def summary(self):
     return {'histories': self.histories, 'rpcs': self.calls, 'first_divergences': len(self.divergences),
-            'skipped_after_divergence': self.skipped_after_divergence, 'wall_s': round(self.wall, 1)}
+            'skipped_after_divergence': self.skipped_after_divergence, 'explained_by_another_allowed_choice': self.other_choice,
+            'wall_s': round(self.wall, 1)}
 
 
 MUTATING = {'CreateStudy', 'DeleteStudy', 'SetStudyState', 'CreateTrial', 'AddMeasurement', 'CompleteTrial', 'StopTrial',
@@ -151,7 +200,7 @@ MUTATING = {'CreateStudy', 'DeleteStudy', 'SetStudyState', 'CreateTrial', 'AddMe
 
 
 def replay(records, conf, backend='ram', scratch=None, procs=None, relevant=None, sample=None, seed=0, binding='world',
-           mutating=None):
+           mutating=None, judge=True):
   """records: list of {'hist','st','resp'} (non-empty hist).  Returns ReplayResult."""
   import random
   res = ReplayResult()
@@ -177,6 +226,7 @@ def replay(records, conf, backend='ram', scratch=None, procs=None, relevant=None
         todo.append((i, r))
       n = max(1, len(todo) // (procs * 4) + 1)
       chunks = [todo[k:k + n] for k in range(0, len(todo), n)]
+      level_divs = []
       for out, calls in ex.map(_run_chunk, chunks):
         res.calls += calls
         for idx, d in out:
@@ -186,8 +236,26 @@ def replay(records, conf, backend='ram', scratch=None, procs=None, relevant=None
           if any(x in (mutating or MUTATING) for x in rpcs) and (relevant is None or any(x in relevant for x in rpcs)):
             res.nontrivial.add(canon(r['hist']))
           if d is not None:
-            bad.add(tuple(canon(c) for c in r['hist']))
-            res.divergences.append(d)
-            res.kinds[canon(d['sig'])] += 1
+            level_divs.append(d)
+      if level_divs and judge and binding == 'world' and scratch is not None:
+        # the outcome differs from the one printed for the model's default choice: ask TLC whether another allowed
+        # choice explains it (needs the abstract state before the last call)
+        hs = [d['hist'] for d in level_divs]
+        m = max(1, len(hs) // (procs * 2) + 1)
+        pres = []
+        for part in ex.map(_pre_chunk, [hs[k:k + m] for k in range(0, len(hs), m)]):
+          pres += part
+        verdicts = judge_divergences(level_divs, pres, conf, scratch, '%s_L%d_%d' % (backend, L, os.getpid()))
+        kept = []
+        for d, v in zip(level_divs, verdicts):
+          if v == 'ok':
+            res.other_choice += 1
+          else:
+            kept.append(d)
+        level_divs = kept
+      for d in level_divs:
+        bad.add(tuple(canon(c) for c in d['hist']))
+        res.divergences.append(d)
+        res.kinds[canon(d['sig'])] += 1
   res.wall = time.time() - t0
   return res
